@@ -11,9 +11,21 @@ pub struct Prop {
 }
 
 pub mod c02_encodings;
+pub mod c03_handshake;
+pub mod c04_forwarding;
+pub mod c05_isolation;
+pub mod c06_registry;
+pub mod c07_access_disconnect;
+pub mod c07_tcp;
+pub mod relay_history;
 pub mod c16_take_segments;
 
 pub const REGISTRY: &[Prop] = &[
     Prop { id: "C02", level: "exploration", watchdog_quick_s: 600, watchdog_thorough_s: 3600, run: c02_encodings::run },
+    Prop { id: "C03", level: "exploration", watchdog_quick_s: 900, watchdog_thorough_s: 7200, run: c03_handshake::run },
+    Prop { id: "C04", level: "exploration", watchdog_quick_s: 900, watchdog_thorough_s: 7200, run: c04_forwarding::run },
+    Prop { id: "C05", level: "exploration", watchdog_quick_s: 900, watchdog_thorough_s: 7200, run: c05_isolation::run },
+    Prop { id: "C06", level: "exploration", watchdog_quick_s: 900, watchdog_thorough_s: 7200, run: c06_registry::run },
+    Prop { id: "C07", level: "fault_enumeration", watchdog_quick_s: 1200, watchdog_thorough_s: 7200, run: c07_access_disconnect::run },
     Prop { id: "C16", level: "exploration", watchdog_quick_s: 600, watchdog_thorough_s: 3600, run: c16_take_segments::run },
 ];
